@@ -7,13 +7,21 @@ STATEMENTS only; the proofs are in `ZkeyProofs.lean`, the property theorems in `
 namespace Zk
 open Zk.Zkey
 
-/-- the cursor of the model (position + remaining bytes) IS a `Cursor<&[u8]>`: a read of `n` bytes at position `p`
-    succeeds exactly when the bytes are there, returns `data[p .. p+n]` and moves to `p + n`; otherwise it is an error
-    (never a panic), also when the position lies beyond the end -/
-def CursorReadStmt : Prop :=
+/-- FIRST FORM OF THE CURSOR STATEMENT, FALSE (kept for the record; refuted by `Zkey.cursor_read_false`): it claimed an error
+    whenever `data.length < p + n`, but a read of ZERO bytes succeeds at any position, beyond the end too — in the model
+    as in `read_exact` on a `Cursor` (`data = []`, `p = 1`, `n = 0`). Found by the proof attempt. -/
+def CursorReadStmtOriginal : Prop :=
   ∀ (data : Bytes) (p n : Nat),
     (p + n ≤ data.length → (Cur.at data p).read n = .ok ((data.drop p).take n, Cur.at data (p + n))) ∧
     (data.length < p + n → (Cur.at data p).read n = .err)
+
+/-- the cursor of the model (position + remaining bytes) IS a `Cursor<&[u8]>`: a read of `n` bytes at position `p`
+    succeeds when the bytes are there, returns `data[p .. p+n]` and moves to `p + n`; a read of at least one byte that
+    does not fit is an error (never a panic), also when the position lies beyond the end -/
+def CursorReadStmt : Prop :=
+  ∀ (data : Bytes) (p n : Nat),
+    (p + n ≤ data.length → (Cur.at data p).read n = .ok ((data.drop p).take n, Cur.at data (p + n))) ∧
+    (0 < n → data.length < p + n → (Cur.at data p).read n = .err)
 
 /-- `get_section` returns the FIRST section with the id, whatever stands before it under other ids -/
 def SectionFirstWinsStmt : Prop :=
